@@ -2,7 +2,7 @@
 (* The bounded event vocabulary shared by the exhaustive model check (LoDSMMC) and the behaviour generator (LoDSMGen). *)
 EXTENDS LoDSM
 It(a, b) == [k \in {"a", "b"} |-> IF k = "a" THEN a ELSE b]
-InitSt == [items |-> <<It(0, None), It(1, 1), [a |-> 0]>>,
+InitSt == [items |-> <<It(0, None), It(1, 1), [a |-> 0]>>, hp |-> <<1, 1, 1>>,
            lists |-> <<NewList(<<1, 2, 3>>, {}, {})>>]
 Preds == {[f |-> "a_eq", v |-> 0], [f |-> "b_notnone"]}
 Fns == {[f |-> "const", v |-> 1], [f |-> "from", k |-> "a"]}
@@ -18,6 +18,8 @@ UnaryArgs ==
   \cup {[op |-> "modify", k |-> k, g |-> g] : k \in {"b", "x"}, g \in Fns}
   \cup {[op |-> "modify_if", p |-> p, k |-> "b", g |-> g] : p \in Preds, g \in Fns}
 BinaryArgs == {[op |-> o] : o \in {"extend", "add", "semi", "anti", "inner", "left"}}
+(* the user's own assignment into the first dict of a list (creates no list: kept apart from the list-creating events) *)
+PokesOf(s) == {[x |-> x, o |-> 0, a |-> [op |-> "poke", i |-> 0, v |-> 0]] : x \in {y \in DOMAIN s.lists : s.lists[y].its # <<>>}}
 EventsOf(s) == {[x |-> x, o |-> 0, a |-> a] : x \in DOMAIN s.lists, a \in UnaryArgs}
           \cup {[x |-> x, o |-> o, a |-> a] : x \in DOMAIN s.lists, o \in DOMAIN s.lists, a \in BinaryArgs}
 =============================================================================
